@@ -65,14 +65,37 @@ spec fn same_consts(a: World, b: World) -> bool {
 
 // every file outside the cache directory and different from the listed paths is untouched (whole entry:
 // bytes, mtime, executable bit); directories untouched
-spec fn frame_except(a: World, b: World, keep: Set<Seq<char>>) -> bool {
+spec fn frame_except(a: World, b: World, keep: Seq<Seq<char>>) -> bool {
     &&& a.dirs == b.dirs
     &&& same_consts(a, b)
     &&& forall|p: Seq<char>| #![trigger b.files[p]] #![trigger a.files[p]] #![trigger b.files.contains_key(p)] !keep.contains(p) && !under(a.cache_dir, p) ==>
             (a.files.contains_key(p) == b.files.contains_key(p) && (a.files.contains_key(p) ==> a.files[p] == b.files[p]))
 }
+// the same with a single exempt path
+spec fn frame_except1(a: World, b: World, t: Seq<char>) -> bool {
+    &&& a.dirs == b.dirs
+    &&& same_consts(a, b)
+    &&& forall|p: Seq<char>| #![trigger b.files[p]] #![trigger a.files[p]] #![trigger b.files.contains_key(p)] p != t && !under(a.cache_dir, p) ==>
+            (a.files.contains_key(p) == b.files.contains_key(p) && (a.files.contains_key(p) ==> a.files[p] == b.files[p]))
+}
+proof fn frame1_to_n(a: World, b: World, t: Seq<char>, keep: Seq<Seq<char>>)
+    requires frame_except1(a, b, t), keep.contains(t) ensures frame_except(a, b, keep) {}
+proof fn frame_trans(a: World, b: World, c: World, keep: Seq<Seq<char>>)
+    requires frame_except(a, b, keep), frame_except(b, c, keep) ensures frame_except(a, c, keep)
+{
+    assert forall|p: Seq<char>| #![trigger c.files[p]] #![trigger a.files[p]] #![trigger c.files.contains_key(p)] !keep.contains(p) && !under(a.cache_dir, p) implies
+            (a.files.contains_key(p) == c.files.contains_key(p) && (a.files.contains_key(p) ==> a.files[p] == c.files[p])) by {
+        assert(a.files.contains_key(p) == b.files.contains_key(p));
+        assert(b.files.contains_key(p) == c.files.contains_key(p));
+    }
+}
 // C09: only declared targets in scope and the cache directory are touched
-spec fn frame_ok(a: World, b: World) -> bool { frame_except(a, b, a.targets) }
+spec fn frame_ok(a: World, b: World) -> bool {
+    &&& a.dirs == b.dirs
+    &&& same_consts(a, b)
+    &&& forall|p: Seq<char>| #![trigger b.files[p]] #![trigger a.files[p]] #![trigger b.files.contains_key(p)] !a.targets.contains(p) && !under(a.cache_dir, p) ==>
+            (a.files.contains_key(p) == b.files.contains_key(p) && (a.files.contains_key(p) ==> a.files[p] == b.files[p]))
+}
 
 // Crash-step obligation for rename(a -> b), required by the `System::rename` contract at every call site:
 //  C09  both ends are declared targets in scope or inside the cache directory;
